@@ -872,3 +872,19 @@ def run(chk: Check):
     _b2(chk, longs, "window-walks", budget, every)
     chk.cov["window_walks"] = {"walks": n_long, "window": _WINDOW_REAL, "events": sum(len(t) for t in longs)}
     chk.cov["exhaustive"] = True
+
+
+# ---- growth beyond the listed property: the Vivox voice control connection (VoiceClient.tla) and the client
+# endpoint's region/session life cycle (ClientSession.tla)
+_run_circuit = run
+
+
+def run(chk):
+    _run_circuit(chk)
+    from . import growth_voiceclient, growth_clientsession
+    if chk.tier == "quick":
+        common.growth(chk, "VoiceClient", growth_voiceclient.section, "ModesQuick", 0, 2000)
+        common.growth(chk, "ClientSession", growth_clientsession.section)
+    else:
+        common.growth(chk, "VoiceClient", growth_voiceclient.section, "ModesThorough", 0, 8000)
+        common.growth(chk, "ClientSession", growth_clientsession.section, 1, seeds=2, max_n=2, cap_pairs=3000)
